@@ -435,3 +435,25 @@ def tick_first(prog):
                       "conversion of character constants: the constant '$' evaluates to the current address instead of 36" % cn['l'],
                       'the TOKEN_TICKED conversion dominates the `$` test', False))
     return RuleResult('TICK-FIRST', obs, 1, {})
+
+
+def esc_const(prog):
+    """ESC-CONST (C05): process_escape() maps each recognised escape letter to a constant and leaves everything else alone:
+    every return of the function returns a constant, and the fall-back return of the backslash is preceded by pushing the
+    unrecognised character back.  A `default: return ch;` silently drops the backslash of `"C:\\dir"`."""
+    fn = prog.fn_opt('process_escape', 'core/tokens.cpp') or prog.fn_opt('process_escape')
+    if fn is None:
+        raise AnalysisBroken('ESC-CONST: process_escape not found')
+    obs = []
+    k = 0
+    for n in sorted(fn.nodes.values(), key=lambda x: x['i']):
+        if n['k'] == 'ReturnStmt' and kids(n):
+            k += 1
+            v = const(kids(n)[0])
+            obs.append(Ob('ESC-CONST', fn.file, n['l'], fn.q, 'return#%d' % k, DISCHARGED if v is not None else VIOLATED,
+                          '' if v is not None else '`return %s` hands back a character taken from the source instead of a constant of the '
+                          'escape table: an unrecognised escape loses its backslash' % show(kids(n)[0])[:30],
+                          'returns the constant %s' % v, False))
+    if k < 5:
+        raise AnalysisBroken('ESC-CONST: only %d returns in process_escape' % k)
+    return RuleResult('ESC-CONST', obs, 5, {})
